@@ -94,7 +94,7 @@ Lemma len_cq c h h' : connection_queued c h = Ok h' -> length (h_qs h') = length
 Proof. unfold connection_queued. destruct (has _ _); intros H; inversion H; triv_len. Qed.
 Lemma len_cu c h h' : connection_unqueued c h = Ok h' -> length (h_qs h') = length (h_qs h) /\ length (h_ents h') = length (h_ents h).
 Proof. unfold connection_unqueued. destruct (remove_swap _ _); intros H; inversion H; triv_len. Qed.
-Lemma len_try v c h h' : try_unchoke_new v c h = Ok h' -> length (h_qs h') = length (h_qs h) /\ length (h_ents h') = length (h_ents h).
+Lemma len_try v hold c h h' : try_unchoke_new v hold c h = Ok h' -> length (h_qs h') = length (h_qs h) /\ length (h_ents h') = length (h_ents h).
 Proof. unfold try_unchoke_new. destruct (_ && _); [|intros H; inversion H; auto].
   destruct (slot _ _ _ _) as [[h1 r]|] eqn:S; [|discriminate]. simpl. intros H. apply len_recv in H. apply len_slot in S. intuition congruence. Qed.
 
@@ -140,15 +140,15 @@ Proof. intros. unfold GoodSt, init; simpl. repeat split; try apply empty_half_go
 (* An upload-side connection that becomes interested (or is un-snubbed) is only unchoked when the
    queue is not full, the global maximum leaves room, the torrent's max_slots leaves room and the
    10 s re-unchoke guard has passed. *)
-Theorem limits_new_unchoke_guard_up : forall v c h h', v_dir v = Up -> try_unchoke_new v c h = Ok h' ->
+Theorem limits_new_unchoke_guard_up : forall v hold c h h', v_dir v = Up -> try_unchoke_new v hold c h = Ok h' ->
   h' = h \/
   (let t := tor_of h c in let q := getq h (grp_of h t) in
    (q_max q = unlimited \/ q_cu q < Z.of_N (q_max q)) /\
    (h_max h = 0%N \/ h_cur h < Z.of_N (h_max h)) /\
    gettn h t < Z.of_N (e_max (getent h t)) /\
-   cs_t (getcs h c) + 10000000 < v_now v).
+   cs_t (getcs h c) + hold < v_now v).
 Proof.
-  intros v c h h' Hd. unfold try_unchoke_new, all_new, is_full, should_unchoke, can_unchoke. rewrite Hd. simpl.
+  intros v hold c h h' Hd. unfold try_unchoke_new, all_new, is_full, should_unchoke, can_unchoke. rewrite Hd. simpl.
   destruct (negb _ && _ && _ && _) eqn:G; [|intros H; inversion H; auto].
   intros _. right.
   apply andb_prop in G; destruct G as [G G4]. apply andb_prop in G; destruct G as [G G3]. apply andb_prop in G; destruct G as [G1 G2].
@@ -161,7 +161,7 @@ Qed.
 Example limits_new_unchoke_guard_up_nonvacuous :
   match step (init 1 1) (ONew 0) [] with
   | Ok s1 => match connection_queued 0 (updcs 0 (set_q true) (s_up s1)) with
-             | Ok h => match try_unchoke_new (mkEnv Up 31536000000000 [] []) 0 h with
+             | Ok h => match try_unchoke_new (mkEnv Up 31536000000000 [] [] (10000000, 10000000)) 10000000 0 h with
                        | Ok h' => h_cur h' = 1 /\ h_cur h = 0
                        | Err _ => False end
              | Err _ => False end
